@@ -270,16 +270,10 @@ def refreshGo (s : Sys) : List Wp → Sys
     | .error _ => refreshGo { s with wps := s.wps ++ [{ w with hw := { w.hw with reg := none } }] } ws
     | .ok (st, hw, s1) => refreshGo { s1 with wps := s1.wps ++ [{ w with hw := hw }], last := some st } ws
 
-def releaseScoped (comps : List Comp) : List Wp → List Comp
-  | [] => comps
-  | w :: ws => match w.companion with
-    | some bp => releaseScoped (decCompanion comps bp w.num) ws
-    | none => releaseScoped comps ws
-
-/-- registry and (new) process right after `clear_local_disable_global` and the start of the new process -/
+/-- registry and (new) process right after `clear_local_disable_global`, `disable_all_breakpoints` (which drops
+every `WatchpointCompanion` breakpoint, referenced or not) and the start of the new process -/
 def hibernate (s : Sys) : Sys :=
-  { s with main := {}, others := [], last := none, wps := [],
-           comps := releaseScoped s.comps (s.wps.filter (fun w => w.scoped)) }
+  { s with main := {}, others := [], last := none, wps := [], comps := [] }
 
 def restart (s : Sys) : Sys := refreshGo (hibernate s) (s.wps.filter (fun w => !w.scoped))
 
